@@ -48,6 +48,9 @@ def brute(scffld, a, b):
 
 class C12(Check):
     pid = "C12"
+    level_text = (
+        "Bounded exhaustive: every scaffold of <=6 (8) rows x every query, on one object per query order; brute-force scan as reference; termination by watchdog."
+    )
     technique = (
         "exhaustive scope enumeration on the real find_overlaps: all scaffolds <= K rows "
         "over a 5-row alphabet x all query intervals, brute-force scan as reference model"
